@@ -50,6 +50,10 @@ class C13(TreeCheck):
                 pts = explore.points_of(F, role="driver", thr="user", quals=["ProcessPoolExecutor.submit", "ProcessPoolExecutor._adjust_process_count", "Popen._launch", "SemLock.__init__", "fork_exec", "ProcessPoolExecutor._start_executor_manager_thread"])
                 for pt in explore.stratified_sample(pts, 1 if quick else 3, rng):
                     out.append(({"rules": [explore.rule(pt, ["kill", "SIGKILL"], hit=1)], "_timeouts": {"tree_wait_s": 50, "hard_s": 200}}, {"mode": "KP", "fn": pt["qual"]}))
+        # parent SIGKILL while it creates its first named semaphore (no worker exists yet, so the tree ends at once)
+        ipts = explore.points_of(F, role="driver", thr="user", quals=["SemLock.__init__"])
+        for pt in explore.stratified_sample(ipts, 3 if quick else 8, rng, key=lambda p: p["rel"]):
+            out.append(({"rules": [explore.rule(pt, ["kill", "SIGKILL"], hit=1)]}, {"mode": "KP", "fn": "SemLock.__init__+%d" % pt["rel"]}))
         out += explore.derive_Z(rng, 1)
         # observability for finding F8: which thread runs SemLock._cleanup (a mark, no perturbation)
         marks = [explore.rule(pt, ["mark", "semlock_cleanup"], hit=0) for pt in explore.points_of(F, role="driver", quals=["SemLock._cleanup"]) if pt["rel"] <= 3]
